@@ -383,7 +383,7 @@ func init() {
 			"(R4, writer/reader agreement) the outline item entries the reader takes only when present (/C → Bookmark.Color, /F → Bold/Italic) are stored by the writer under presence tests only — every branch condition that dominates the store is a nil test, a zero test or a flag, never a condition on the attribute's value (a colour or style that is skipped because it 'is the default' does not come back). " +
 			"(R5, writer/reader agreement) every source of the value stored under /Title is the byte-order-marked UTF-16BE encoder (types.EscapedUTF16String, or types.Escape over types.EncodeUTF16String, followed through wrappers' return values): that is the one form the reader decodes without its valid-UTF-8-else-PDFDocEncoding guess. " +
 			"(R6, writer/reader agreement) XRefTable.DereferenceDestArray consults the Dests name tree — where bmDict registers the destination of an imported bookmark — before the legacy catalog /Dests dictionary on every path. NOT decided: the rest of the export/import round trip (pages, nesting, order, numeric colour values) — value-level.",
-		Rules:       []string{"C36.R1 SCC: bookmark recursion guarded", "C36.R2 MPT: bookmark chain loops guarded per iteration", "C36.R2s/R2p: the outline scan that validation runs before bookmarks are read is complete, and the unguarded outline walk runs only after it", "C36.R3 order: entries a name registration may rewrite are not stored after it", "C36.R4 agreement: optional outline entries stored under presence tests only", "C36.R5 agreement: title bytes come from the BOM-marked UTF-16BE encoder", "C36.R6 agreement: named destinations are resolved in the store the bookmark writer registers in, before the legacy /Dests dictionary"},
+		Rules:       []string{"C36.R1 SCC: bookmark recursion guarded", "C36.R2 MPT: bookmark chain loops guarded per iteration", "C36.R2s/R2p: the outline scan that validation runs before bookmarks are read is complete, and the unguarded outline walk runs only after it", "C36.R3 order: entries a name registration may rewrite are not stored after it", "C36.R4 agreement: optional outline entries stored under presence tests only", "C36.R5 agreement: title bytes come from the BOM-marked UTF-16BE encoder", "C36.R6 agreement: named destinations are resolved in the store the bookmark writer registers in, before the legacy /Dests dictionary", "C36.R7 shape: the UTF-16 encoder titles go through delegates to unicode/utf16 (surrogate pairs)", "C36.R8 TABLE: Bookmark.Style can return every combination of the italic and bold bits {0,1,2,3}"},
 		Assumptions: []string{"same call graph and guard recognition as C08"},
 		Technique:   "call-graph SCC analysis and natural-loop must-pass-through dataflow on SSA (shared with C08), restricted to the bookmark files; dominating-branch classification and value-source tracing (through callee return values) for the writer/reader agreement clauses",
 		Note:        "Partial: termination clause, plus three structural clauses of the round trip.",
@@ -566,6 +566,9 @@ func runC36(c *Ctx) {
 	r.MinInst["C36.R5"] = 1
 	checkOptionalAttributesWritten(c)
 	checkTitleEncoding(c)
+	r.MinInst["C36.R7"] = 1
+	r.MinInst["C36.R8"] = 1
+	checkC36Round4(c)
 	saved := c08LoopTriage
 	c08LoopTriage = map[string]triage{}
 	runC08R2(c, gs, "C36.R2", func(fid string) bool {
